@@ -255,4 +255,8 @@ U_C15_planted == [k \in 1..(NPlantPos * NU * 4) |->
 U_C15_clean == [k \in 1..(Len(Hosts) * 4) |-> Place(Hosts[((k - 1) \div 4) + 1], ((k - 1) % 4) + 1)]
 U_C15 == TLCEval(U_C15_clean \o U_C15_planted)
 
+\* ---- Pipeline: a keyword list with more token types than 2 bits of group id can tell apart ----
+U_PipeW == << OneMode(<< Pat(Cat(A1, A1), 1), Pat(Cat(A1, A2), 2), Pat(Cat(A2, A1), 3), Pat(Cat(A2, A2), 4),
+                         Pat(A1, 5), Pat(A2, 6), Pat(Cat(A1, Cat(A1, A1)), 7) >>) >>
+
 =============================================================================
